@@ -508,7 +508,7 @@ pub fn run_leg(ctx: &mut Ctx, rng: &mut Rng, thorough: bool) {
     for (n, e, nf) in [(2usize, 4usize, vec![2usize, 2]), (3, 3, vec![1, 2, 0]), (3, 3, vec![2, 2, 2])] {
         enumerate(n, e, &nf, &mut |c| cases.push(c));
     }
-    let nex = if thorough { 400 } else { 30 };
+    let nex = if thorough { 400 } else { 44 };
     for k in 0..nex {
         let c = &cases[rng.below(cases.len())];
         let c = if k % 2 == 0 { as_project(c) } else { as_project(&decorate(c, rng)) };
